@@ -2,6 +2,7 @@ package band
 
 import (
 	"encoding/binary"
+	"errors"
 	"sort"
 	"time"
 
@@ -37,6 +38,10 @@ func (b *au915Band) GetDefaultMaxUplinkEIRP() float32 {
 }
 
 func (b *au915Band) GetPingSlotFrequency(devAddr lorawan.DevAddr, beaconTime time.Duration) (uint32, error) {
+	if beaconTime < 0 {
+		return 0, errors.New("lorawan/band: beacon time must not be negative")
+	}
+
 	downlinkChannel := (int(binary.BigEndian.Uint32(devAddr[:])) + int(beaconTime/(128*time.Second))) % 8
 	// Beaconing is performed on the same channel that normal downstream traffic as
 	// defined in the Class A specification.
